@@ -80,6 +80,34 @@ _e1("C19", "Shapes (Hexagon, Rectangle 1:1 and 4:1, Circle, Cell, Cell3Sec, Cell
     "Trusted: crossing-number test, independent vertex model. Points within 1e-9 r of an edge are excluded as ties and counted. Random placement through CellWrap is not explored (stated).")
 CHECKS["C19"] = (CHECKS["C19"][0], "exhaustive product enumeration + deviation-bounded exploration of scripted random draws (E2) + setter histories on real shape/cell objects", ) + CHECKS["C19"][2:]
 
+# ---- additions after the seeded-change waves (object-reuse histories, layouts, scales) ----
+def _append(pid, extra_text, technique=None):
+    lvl, tech, text, note, ref = CHECKS[pid]
+    CHECKS[pid] = (lvl, technique or tech, text + " " + extra_text, note, ref)
+
+_H = "explicit-state exploration of call/setter histories on one reused real object with a fresh-object differential"
+_append("C01", "Index and sample arrays are additionally presented transposed, Fortran-ordered, strided, with negative strides, read-only, empty, as lists and in every integer width; one index/sample buffer is rewritten in place between calls (results must follow the new content, arguments stay bit-identical, returned arrays do not alias the table).")
+_append("C02", "Part H: BFS (depth 3, thorough 4) over set_parameters / attribute assignments / cache-populating reads / transmissions on ONE OFDM object with its bound equaliser and a reused TdlChannel; after every event all round-trip, CP, guard-bin and equalisation relations for the CURRENT parameters and bit-exact equality with a fresh object; aliasing relations; six input dtypes/layouts.",
+        "exhaustive product enumeration + " + _H)
+_append("C03", "Every scenario also checks aliasing (arguments byte-identical, caller buffers rewritten in place between transmissions, returned arrays overwritten by the caller), amplitude / path-loss scales 1e-12..1e12, Ts 1e-9, 150 dB tap spans, twelve dtype/layout presentations, signal / fft sizes around powers of two up to 4097 (16385), and every sequence of <=2 interleaved events (switched_direction, set_num_antennas incl. None/None, direct generate_impulse_response, set_pathloss) between three transmissions.")
+_append("C04", "History part: BFS (depth 4, thorough 5) over set_channel_matrix (other shape / other values), set_noise_var, calc_linear_SINRs, calc_SINRs, _calc_precoder, _calc_receive_filter, encode, decode on ONE object per scheme with the MMSE/ZF filter relation for the CURRENT state and a fresh-object differential; shapes up to 6x6 (8x8), global scale factors 1e-12..1e9, nearly tied singular values, Fortran / read-only / transposed inputs.",
+        "exhaustive product enumeration + " + _H)
+_append("C09", "Part H: every event sequence of length <=3 (thorough 4) on ONE EnhancedBD / WhiteningBD / BlockDiagonalizer object (metric changes, iPu, pe, noise_var, runs on two layouts, in-place refresh of the caller's channel buffer) with all relations for the current configuration and bit-for-bit equality with a fresh object; inputs-unchanged and second-call relations; channel scale factors 1e-12..1e6.",
+        "exhaustive product enumeration + " + _H)
+_append("C11", "Part H: BFS (depth 3) over set_pathloss (incl. -160 dB), noise_var (incl. 1e-13, 1e-20), init_from_channel_matrix, scripted randomize, solver setters and cache-warming observations on ONE channel object + ONE bound solver, every state compared with first principles; Part 1b: scale families (filters/precoders x1e-10..1e8, channels x1e-9/1e6, path loss 1e-12..1e-17, tiny noise / pe) with purely relative tolerances.",
+        "exhaustive product enumeration + " + _H)
+_append("C12", "Scale families: gains 1e-20..1e16 (36 decades), global rescaling of gains / noise / Pt / Es, a scale-covariance relation, link-budget vectors; arguments must not be modified.")
+_append("C13", "A second BFS per family treats QUERIES as events (same distance array object reused, result overwritten by the caller, policy toggled between queries) and every numeric dtype / layout of distances and angles is compared with the float64 result.")
+_append("C14", "A block part issues single requests of 1023..100000 samples and threshold skips followed by small requests, with differentials against one-request and 500-sample-chunk generation by identically seeded twins.")
+_append("C16", "Call sequences on ONE modulator object with the same SNR buffer rewritten in place between calls (five orders of SER/BER/PER/SE), arguments unchanged, returned arrays stable, other SNR dtypes/layouts bit-identical to float64, setPhaseOffset interleavings compared with direct construction.")
+_append("C17", "Value alphabet extended with non-contiguous / Fortran / strided / negative-stride / read-only / 0-d arrays and confusable floats (tiny, large-close, one ulp apart) for the file-name injectivity set.")
+_append("C18", "Shared-root histories (users created in every order on one RootSequence, caller clobbering returned arrays) and estimator histories (one estimator reused with rewritten buffers), gains 1e-12..1e12, complex64 / Fortran / strided / read-only observations, extra lengths 25..128.")
+_append("C20", "General (non-Hermitian) inputs and signed / complex diagonal updates for update_inv_sum_diag, shapes to 6x6, scale factors 1e-12..1e9, nearly tied singular values, and an aliasing battery for every kernel (arguments bit-identical, second call identical, Fortran / read-only / transposed inputs).")
+_append("C05", "Stop predicates also return numpy booleans; grids include confusable floats (1e-9.. and 2.4e9+5e3); modes include a second simulate() on the same runner after the grid (item assignment / add) or rep_max was changed.")
+_append("C07", "Plans: the per-variation workflow (simulate(0), simulate(1) as separate processes, then simulate()) and a second simulate() on the SAME runner after completion, each with the same crash / skip / clock-jump exploration.")
+_append("C08", "K in {2,3}; channel magnitude 1e-9, link-budget path loss 1e-12..1e-15 and noise 1e-13 are part of the event alphabet.")
+_append("C15", "Conversions and bit-error counting are also run on Fortran-ordered, transposed, strided, 3-D swapped-axes, read-only arrays and on every integer width int8..uint64, with arguments-unchanged and second-call relations.")
+
 NOT_YET = {}
 
 
